@@ -214,10 +214,20 @@ def _new_stats():
             "enum_done": 0, "inner": 0}
 
 
+_INFLIGHT = {"path": None}
+
+
 def run_case(sub, case, stats=None):
     """Returns None if the property held, else (clause, detail)."""
     ctx = Ctx()
     out = None
+    if stats is not None and _INFLIGHT["path"]:
+        # a crash (segfault / abort) of the code under test kills the worker: the case being executed is on disk
+        try:
+            with open(_INFLIGHT["path"], "w") as fh:
+                json.dump({"sub": sub.name, "case": case}, fh, default=str)
+        except OSError:
+            pass
     try:
         sub.fn(case, ctx)
     except Violation as v:
@@ -263,6 +273,8 @@ def run_unit(module_name, sub_name, tier, seed, shard, n_shards):
     assert_repo_import()
     mod = importlib.import_module(module_name)
     sub = {s.name: s for s in mod.subchecks(tier)}[sub_name]
+    _INFLIGHT["path"] = inflight_path(mod.PROPERTY, sub_name, shard)
+    os.makedirs(os.path.dirname(_INFLIGHT["path"]), exist_ok=True)
     stats = _new_stats()
     t0 = time.time()
     budget = sub.budget_quick if tier == "quick" else sub.budget_thorough
@@ -285,7 +297,16 @@ def run_unit(module_name, sub_name, tier, seed, shard, n_shards):
         _run_hypothesis(sub, tier, seed, shard, n_shards, stats, t0, budget)
     stats["nt"] = sorted(stats["nt"])
     stats["wall"] = time.time() - t0
+    try:
+        os.remove(_INFLIGHT["path"])
+    except OSError:
+        pass
+    _INFLIGHT["path"] = None
     return stats
+
+
+def inflight_path(prop, sub_name, shard):
+    return os.path.join(VERIF, ".cache", "inflight", "%s-%s-%d-%d.json" % (prop, sub_name, shard, os.getppid() if False else 0))
 
 
 def _unit_seed(seed, sub_name, shard):
@@ -494,11 +515,44 @@ def _run(mod, module_name, args, seed, t0):
         for u in units:
             results.append((u, run_unit(*u)))
     else:
+        from concurrent.futures import ProcessPoolExecutor
+        from concurrent.futures.process import BrokenProcessPool
         ctx = mp.get_context("spawn")
-        with ctx.Pool(workers, maxtasksperchild=None) as pool:
-            handles = [(u, pool.apply_async(run_unit, u)) for u in units]
-            for u, h in handles:
-                results.append((u, h.get()))
+        crashed, timed_out = [], []
+        ex = ProcessPoolExecutor(max_workers=workers, mp_context=ctx)
+        try:
+            futs = [(u, ex.submit(run_unit, *u)) for u in units]
+            for u, f in futs:
+                sub_u = [s for s in subs if s.name == u[1]][0]
+                limit = (sub_u.budget_quick if tier == "quick" else sub_u.budget_thorough) * 2 + 600
+                try:
+                    results.append((u, f.result(timeout=limit)))
+                except BrokenProcessPool:
+                    crashed.append(u)
+                except TimeoutError:
+                    timed_out.append(u)
+                    break
+        finally:
+            procs = list((getattr(ex, "_processes", None) or {}).values())
+            ex.shutdown(wait=False, cancel_futures=True)
+            for p_ in procs if (crashed or timed_out) else []:
+                try:
+                    p_.kill()
+                except Exception:  # noqa: BLE001
+                    pass
+        if crashed:
+            # a worker died (segfault / abort inside the code under test): every unit whose in-flight file is still there was
+            # executing that case when its process (or the pool) went down; the first one listed is reported as the crashing input
+            for u in crashed:
+                ip = inflight_path(prop, u[1], u[4])
+                if os.path.exists(ip):
+                    rec = json.load(open(ip))
+                    classify(rec["sub"], "process-crash", rec["case"], "the worker process executing this case died (segfault/abort in the code under test)", "generated")
+                    os.remove(ip)
+            if not violations:
+                raise HarnessError("a worker process died but no in-flight case was recorded")
+        if timed_out:
+            raise HarnessError("unit %s/%d exceeded its hard time limit (inconclusive)" % (timed_out[0][1], timed_out[0][4]))
 
     total_eval, all_nt, classes, samples = 0, set(), {}, []
     rejected = skipped = inner = 0
